@@ -62,6 +62,37 @@ def attr_writers(repo, attr):
     return out
 
 
+def root_callers(repo, f, _seen=None):
+    """a private helper (``_name``, not overriding anything) acts on behalf of the methods that call it through
+    ``self._name(...)``: return the qualnames of those root callers (the function itself when it is not a helper)"""
+    _seen = _seen or set()
+    if f.cls is None or not f.name.startswith('_') or f.name.startswith('__') or f.node in _seen:
+        return {f.qualname}
+    _seen.add(f.node)
+    for b in f.cls.mro()[1:]:
+        if f.name in b.methods:
+            return {f.qualname}           # overrides inherited behaviour: judged on its own
+    callers = set()
+    family = [c for c in repo.all_classes() if f.cls in c.mro()]
+    for c in family:
+        for g in c.methods.values():
+            if g.node is f.node:
+                continue
+            for n in walk_local(g.node):
+                if isinstance(n, ast.Call) and isinstance(n.func, ast.Attribute) and n.func.attr == f.name \
+                        and isinstance(n.func.value, ast.Name) and n.func.value.id == 'self':
+                    callers |= root_callers(repo, g, _seen)
+    return callers or {f.qualname}
+
+
+def acting_as(repo, f, allowed) -> bool:
+    """is f one of the allowed methods, or a private helper used only by allowed methods?"""
+    if f.qualname in allowed:
+        return True
+    roots = root_callers(repo, f)
+    return bool(roots) and roots != {f.qualname} and all(r in allowed for r in roots)
+
+
 def check_writers(ctx, rule, attr, allowed, floor, what):
     """allowed: {qualname: reason}.  Every writer of .<attr> anywhere must be in the table."""
     sites = attr_writers(ctx.repo, attr)
@@ -70,10 +101,10 @@ def check_writers(ctx, rule, attr, allowed, floor, what):
     for f, n, kind in sites:
         ctx.touch(f)
         q = f.qualname
-        ok = q in allowed
+        ok = acting_as(ctx.repo, f, allowed)
         ctx.ob(rule, ok)
         if ok:
-            ctx.sample(rule, '%s::%s' % (f.module.relpath, q), 'writer of .%s (%s) is in the owner table: %s' % (attr, kind, allowed[q]))
+            ctx.sample(rule, '%s::%s' % (f.module.relpath, q), 'writer of .%s (%s) is in the owner table: %s' % (attr, kind, allowed.get(q, 'helper of an owner')))
         else:
             ctx.violation(rule, '%s::%s' % (f.module.relpath, q), 'writer of .%s: %s' % (attr, kind),
                           '%s: %s writes .%s (%s); only %s may' % (what, q, attr, kind, ', '.join(sorted(allowed))),
@@ -97,7 +128,7 @@ def kernel_state_writers(ctx, prop):
         for node in walk_local(f.node):
             if isinstance(node, ast.Attribute) and node.attr == '_eid' and isinstance(node.ctx, ast.Load):
                 n += 1
-                ok = f.qualname == 'Environment.schedule'
+                ok = root_callers(ctx.repo, f) == {'Environment.schedule'}
                 ctx.ob(rule, ok)
                 if not ok:
                     ctx.violation(rule, '%s::%s' % (f.module.relpath, f.qualname), 'read of ._eid',
@@ -135,7 +166,11 @@ def schedule_sites(ctx, prop):
                         pr = k.value
                 got = 'NORMAL' if pr is None else (pr.id if isinstance(pr, ast.Name) else ast.unparse(pr))
                 q = f.qualname
-                construct = '%s::%s' % (f.module.relpath, q)
+                if q not in PRIORITY_TABLE:
+                    roots = root_callers(ctx.repo, f)
+                    if len(roots) == 1 and next(iter(roots)) in PRIORITY_TABLE:
+                        q = next(iter(roots))
+                construct = '%s::%s' % (f.module.relpath, f.qualname)
                 where = '%s:%d' % (f.module.relpath, node.lineno)
                 if q not in PRIORITY_TABLE:
                     ctx.ob(rule, False)
@@ -208,7 +243,16 @@ def outcome_writers(ctx, prop):
             n += 1
             ctx.touch(f)
             q = f.qualname
-            ok = q in table or (f.name == '__init__' and f.cls is not None and f.cls.is_subclass_of('Event'))
+            roots = root_callers(ctx.repo, f)
+            def _okq(qn):
+                if qn in table:
+                    return True
+                cn, _, mn = qn.partition('.')
+                try:
+                    return mn == '__init__' and ctx.repo.find_class(cn).is_subclass_of('Event')
+                except Exception:
+                    return False
+            ok = all(_okq(r) for r in roots)
             ctx.ob(rule, ok)
             if ok:
                 ctx.sample(rule, '%s::%s' % (f.module.relpath, q), 'writer of .%s allowed: %s' % (attr, table.get(q, 'constructor of an Event subclass')))
@@ -294,7 +338,7 @@ def interruption_sites(ctx, prop):
         for node in walk_local(f.node):
             if isinstance(node, ast.Call) and isinstance(node.func, ast.Name) and node.func.id == 'Interruption':
                 n += 1
-                ok = f.qualname == 'Process.interrupt'
+                ok = root_callers(ctx.repo, f) == {'Process.interrupt'}
                 ctx.ob(rule, ok)
                 if not ok:
                     ctx.violation(rule, '%s::%s' % (f.module.relpath, f.qualname), 'Interruption(...) constructed',
@@ -307,7 +351,8 @@ def rt_overrides(ctx, prop):
     c = ctx.repo.find_class('RealtimeEnvironment')
     allowed = {'__init__', 'step', 'sync', 'factor', 'strict'}
     for m in c.methods:
-        ok = m in allowed
+        inherited = any(m in b.methods for b in c.mro()[1:])
+        ok = m in allowed or (m.startswith('_') and not m.startswith('__') and not inherited)
         ctx.ob(rule, ok)
         if not ok:
             ctx.violation(rule, 'onl/sim/rt.py::RealtimeEnvironment.%s' % m, 'override %s' % m,
